@@ -48,7 +48,7 @@ def _case(draw):
         err = 'len_mismatch'
     return dict(spec=spec, container=container, default_sc=default_sc, sc=sc, sc_spell=[draw(st.booleans()) for _ in sc],
                 curves=[[c, p] for c, p in zip(cs, ps)], form=form, req=req, req_spell=[draw(st.sampled_from(['name', 'pos', 'neg', 'name', 'pos'])) for _ in req],
-                perm_seed=draw(st.integers(0, 2 ** 16)), err=err, via_get_transform=draw(st.integers(0, 3)) == 0,
+                perm_seed=draw(st.integers(0, 2 ** 16)), err=err, seq=draw(st.sampled_from(['list', 'list', 'tuple'])), via_get_transform=draw(st.integers(0, 3)) == 0,
                 to_rfi_first=draw(st.booleans()))
 
 
@@ -84,6 +84,12 @@ def check(case, obs):
     form = case['form']
     ch_arg = None if form == 'none' else (req_ch[0] if form == 'scalar' else req_ch)
     sc_arg = None if case['default_sc'] else sc_ch
+    if case.get('seq') == 'tuple':               # tuples are sequences like lists
+        ch_arg = tuple(ch_arg) if isinstance(ch_arg, list) else ch_arg
+        sc_arg = tuple(sc_arg) if isinstance(sc_arg, list) else sc_arg
+        curves_arg = tuple(curves)
+    else:
+        curves_arg = curves
     obs.label('container:' + case['container'], 'form:' + form, 'default_sc' if case['default_sc'] else 'explicit_sc')
 
     if case['err'] is not None:
@@ -102,7 +108,7 @@ def check(case, obs):
         return
 
     before = fingerprint(data)
-    out = call(tr.to_mef, data, ch_arg, curves, sc_arg)
+    out = call(tr.to_mef, data, ch_arg, curves_arg, sc_arg)
     obs.claim('input_intact', not fp_diff(before, fingerprint(data)), 'to_mef changed its argument')
     if any(s_ == 'neg' for s_ in case['req_spell']) and form != 'none':
         # a position counted from the end: the statement allows converting it with its own curve or refusing it,
